@@ -164,6 +164,15 @@ func c14Hashlib(msgs [][]byte) ([]string, error) {
 	return lines, nil
 }
 
+// bitsLen returns the exponent of the power of two nearest to n (for messages).
+func bitsLen(n uint64) int {
+	k := 0
+	for uint64(1)<<uint(k+1) <= n+(n>>1) {
+		k++
+	}
+	return k
+}
+
 // patternReader yields n bytes of a cheap deterministic pattern.
 type patternReader struct{ pos, n uint64 }
 
@@ -324,36 +333,68 @@ func TestC14(t *testing.T) {
 		}
 	}
 
-	// Thorough only: one message whose bit length exceeds 2^32 (the 64-bit length
-	// field of the padding), streamed through both sides.
-	if k, _ := ev.Shard(); ev.Thorough() && k < len(c14Algs) {
+	// Thorough only ("length-counter carries"): one stream per algorithm (1 MiB
+	// pattern buffer reused) with Sum compared against the streaming reference
+	// at totals around 2^29 bytes (bit length crosses 2^32) and around 2^32
+	// bytes (byte count crosses 2^32).  Quick never reaches totals >= 2^29.
+	if k, _ := ev.Shard(); ev.Thorough() && k < len(c14Algs) && os.Getenv("VF_RACE") != "1" {
 		a := c14Algs[k]
-		const n = 1<<29 + 77
-		h := a.newH()
-		src := &patternReader{n: n}
+		totals := []uint64{1<<29 - 1, 1 << 29, 1<<29 + 100, 1<<32 - 1, 1 << 32, 1<<32 + 64}
 		buf := make([]byte, 1<<20)
-		for {
-			m, err := src.Read(buf)
-			if m > 0 {
-				h.Write(buf[:m])
-			}
-			if err != nil {
-				break
-			}
+		for i := range buf {
+			buf[i] = byte(i*131 + i>>13 + 7)
 		}
-		var want []byte
+		// the code under test and the reference consume the same stream in two goroutines
+		run := func(write func([]byte), sum func() []byte) [][]byte {
+			var out [][]byte
+			var pos uint64
+			for _, total := range totals {
+				for pos < total {
+					n := uint64(len(buf))
+					if total-pos < n {
+						n = total - pos
+					}
+					write(buf[:n])
+					pos += n
+				}
+				out = append(out, sum())
+			}
+			return out
+		}
+		var got, want [][]byte
+		var perr error
+		done := make(chan struct{})
+		go func() {
+			defer close(done)
+			perr = catch(func() {
+				h := a.newH()
+				got = run(func(b []byte) { h.Write(b) }, func() []byte { return h.Sum(nil) })
+			})
+		}()
+		var rs *refnacl.MDStream
 		if a.name == "md4" {
-			d, _ := refnacl.MD4Reader(&patternReader{n: n})
-			want = d[:]
+			rs = refnacl.NewMD4Stream()
 		} else {
-			d, _ := refnacl.RIPEMD160Reader(&patternReader{n: n})
-			want = d[:]
+			rs = refnacl.NewRIPEMD160Stream()
 		}
-		if got := h.Sum(nil); !bytes.Equal(got, want) {
-			what := fmt.Sprintf("%s: digest of a %d-byte message (bit length > 2^32) = %x, reference %x", a.name, n, got, want)
+		want = run(rs.Write, rs.Sum)
+		<-done
+		if perr != nil {
+			what := fmt.Sprintf("%s: streaming %d bytes: %v", a.name, totals[len(totals)-1], perr)
 			c.Violation(what, "")
 			t.Fatalf("VF-VIOLATION: property=C14 %s", what)
 		}
-		c.Case(true, "huge|"+a.name, "directed:bitlen>2^32")
+		for i, total := range totals {
+			if !bytes.Equal(got[i], want[i]) {
+				what := fmt.Sprintf("%s: Sum after %d bytes (2^%d%+d; bit length %#x) = %x, reference %x", a.name, total, bitsLen(total), int64(total)-int64(uint64(1)<<uint(bitsLen(total))), total*8, got[i], want[i])
+				c.Violation(what, "")
+				t.Fatalf("VF-VIOLATION: property=C14 %s", what)
+			}
+			cl := "length-counter:total~2^29 (bit length crosses 2^32)"
+			if total >= 1<<32-1 {
+				cl = "length-counter:total~2^32 (byte count crosses 2^32)"
+			}
+			c.Case(true, fmt.Sprintf("huge|%s|%d", a.name, total), cl)
+		}
 	}
 }
